@@ -2,7 +2,7 @@
    bool, option, unit, list, prod, sumbool map to OCaml's; N/Z/positive/nat/byte stay Coq
    datatypes).  Not part of _CoqProject: compiled by ./check in _build/extract. *)
 From Coq Require Import extraction.Extraction ExtrOcamlBasic.
-From RS Require Import Base.Bytes Base.Dec Base.Endian Spec.Crc16 Spec.Slot Spec.Crc64 Model.Slot Model.Digest Model.RespCodec Model.Filter Model.CmdFilter Gen.CmdTable Model.Backlog Model.Pipe Model.Supervisor Model.Checkpoint Model.Lzf Model.Rdb Spec.RdbFormat Spec.RdbRecords Gen.Rdb Spec.Compact Model.Cupcake Model.Incr Model.Handoff Model.Offsets Model.Restore Model.Workers Model.Rump Proofs.RumpProofs.
+From RS Require Import Base.Bytes Base.Dec Base.Endian Spec.Crc16 Spec.Slot Spec.Crc64 Model.Slot Model.Digest Model.RespCodec Model.Filter Model.CmdFilter Gen.CmdTable Model.Backlog Model.Pipe Model.Supervisor Model.Checkpoint Model.Lzf Model.Rdb Spec.RdbFormat Spec.RdbRecords Gen.Rdb Spec.Compact Model.Cupcake Model.Incr Model.Handoff Model.Offsets Model.Restore Model.Workers Model.Rump Proofs.RumpProofs Model.Decode.
 Extraction Language OCaml.
 Set Extraction KeepSingleton.
 Extraction "model.ml"
@@ -24,4 +24,5 @@ Extraction "model.ml"
   handoff parse_reply wait_rdb copy_loop pipe_copy ostep ostep_pinned orun received
   restore restore_pinned norm payload_value elems_of target_key compare_version compare_version_pinned ttl_of is_big
   expected all_writes worker_writes delivered want_db path_full path_restore path_rump path_incr copied key_slot
-  rump spec_rump big_apply.
+  rump spec_rump big_apply
+  b64_encode b64_decode lines_of recover.
